@@ -110,6 +110,44 @@ class C03(Prop):
                     if not any(x["bucket"] == sig for x in stt.violations) and len(stt.violations) < 6:
                         stt.violations.append(dict(bucket=sig, message=v.message, case=case))
         stt.notes["max_chain2_enumerated"] = n2
+        if shard == 0:
+            self.shared_cache_history(stt, seed, 150 if tier == "quick" else 1500)
+
+    def shared_cache_history(self, stt, seed, steps):
+        """One cache dict shared by consecutive memoize blocks while operands are created by the caller, used once and
+        dropped (so that object identities are recycled): a later block must never receive a result computed for other
+        operands, and two builds inside one block give the identical object."""
+        import gc
+        from collections import OrderedDict
+
+        import funsor.interpretations as I
+        from funsor import Bint, Tensor, ops
+
+        builders = [
+            ("exp", lambda x: x.exp()),
+            ("reduce-add", lambda x: x.reduce(ops.add, "i")),
+            ("square-logsumexp", lambda x: (x * x).reduce(ops.logaddexp, "i")),
+            ("neg-plus-self", lambda x: -x + x * 2.0),
+        ]
+        for bname, build_ in builders:
+            cache = {}
+            for n in range(steps):
+                stt.evaluations += 1
+                x = Tensor(np.arange(3.0) * 0.5 + (n + seed) % 97, OrderedDict(i=Bint[3]))
+                expected = build_(x)
+                with I.memoize(cache):
+                    first = build_(x)
+                    second = build_(x)
+                if first is not second:
+                    stt.violations.append(dict(bucket="memoize-not-identical|history", message=f"{bname}: two builds inside one memoize block differ at step {n}", case={"history": bname, "step": n}))
+                    return
+                if not isinstance(first, Tensor) or first.inputs != expected.inputs or not np.allclose(first.data, expected.data):
+                    stt.violations.append(dict(bucket="memoize-stale-result|history", message=f"{bname}: step {n} of a shared-cache history returned {getattr(first, 'data', first)} where eager evaluation gives {expected.data}", case={"history": bname, "step": n}))
+                    return
+                del x, first, second, expected
+                gc.collect()
+            stt.count("shared-cache-history:" + bname)
+            stt.mark_nontrivial("history:" + bname)
 
     def check(self, case, stt):
         import contextlib
@@ -120,6 +158,13 @@ class C03(Prop):
         from funsor.terms import Number
         from vf.build import build, funsor_type
 
+        if "history" in case:
+            n0 = len(stt.violations)
+            self.shared_cache_history(stt, int(os.environ.get("VERIF_SEED", "1")), 150)
+            if len(stt.violations) > n0:
+                v = stt.violations.pop()
+                raise Violation(v["bucket"], v["message"])
+            return
         node, nest = case["ast"], tuple(case["nest"])
         stt.count(f"env:TCO={os.environ.get('FUNSOR_USE_TCO', '0')},TYPECHECK={os.environ.get('FUNSOR_TYPECHECK', '0')}")
         stt.count("nest:" + ">".join(nest))
